@@ -20,7 +20,17 @@
      only when the path has segment distances; hence the exclusion of [rides_transferable] routes.
    - [e_ttrd] (transferDistance) used to start at -1, so transferDistance = (sum of transfer walk distances) - 1
      (defect D16, found here, fixed in the C++; [emit_init] now has [e_ttrd := 0]) and is now the fourth component of
-     [walk_dists_ok_b].  No extra hypothesis beyond [shape_ok] is needed. *)
+     [walk_dists_ok_b].  No extra hypothesis beyond [shape_ok] is needed.
+
+   Second part: the in-vehicle and overall distance totals ([SpecDist.vehicle_dists_ok_b], -1 = unknown)
+   - [C06_vehicle_dists] (loop invariant [legs_loop_v] over the relation [vinv]) needs the genuine sums to stay away
+     from the -1 marker: [seg_dists_nonneg_b d] (segment distances >= 0) and [walk_dists_nonneg_b js] (walking
+     distances of the journey >= 0).  Both are necessary at this level ([vehicle_dists_wf_data_not_enough],
+     [vehicle_dists_needs_walk_dists]).
+   - [wf_data_b] only gives -1 <= x for segment distances, so [seg_dists_nonneg_b d] stays an explicit hypothesis of
+     [calc_single_vehicle_dists] / [alternatives_vehicle_dists]; the walking distances are derived
+     ([calc_single_journey]: reverse scan labels, rebuild loop and optimizeJourney only ever store the distance of a
+     table row or 0). *)
 From Coq Require Import List ZArith Bool Arith Lia.
 From TrV Require Import Spec SpecDist Proofs.Totals.
 Import ListNotations.
@@ -192,6 +202,531 @@ Proof.
     apply (calc_single_walk_dists d s _ acc egr false r used Hwf Htab' Hp' Hcalc).
 Qed.
 
+(* ============================================================================================== *)
+(* C06, in-vehicle and overall distance totals ([SpecDist.vehicle_dists_ok_b])                        *)
+(* ============================================================================================== *)
+
+(* The running totals use -1 as the "unknown" marker, so the identity needs every genuine partial sum to stay away
+   from -1.  The natural sufficient condition: segment distances of the ridden paths and the walking distances of the
+   journey are non-negative.  [wf_data_b] does NOT give the first (it only asks -1 <= x of every segment distance:
+   see [vehicle_dists_wf_data_not_enough] below); the second follows, for the journeys calc_single builds, from
+   [rows_ok] of the access / egress / transfer tables ([calc_single_journey] below). *)
+Definition seg_dists_nonneg_b (d : data) : bool :=
+  forallb (fun pth => forallb (fun x => 0 <=? x) (p_dists pth)) (d_paths d).
+
+Definition walk_dists_nonneg_b (js : list jstep) : bool := forallb (fun j => 0 <=? js_dist j) js.
+
+Definition dists_of (d : data) (t : nat) : list Z :=
+  match find_trip d t with Some tr => trip_dists d tr | None => [] end.
+
+Definition leg_have (d : data) (t : nat) (ex : conn) : bool := Nat.ltb (c_seq ex - 1) (length (dists_of d t)).
+
+Definition leg_ivd (d : data) (t : nat) (en ex : conn) : Z :=
+  if leg_have d t ex
+  then sum_dists (dists_of d t) (c_seq en - 1)%nat (c_seq ex - (c_seq en - 1))%nat else -1.
+
+Lemma dists_of_nonneg : forall d, seg_dists_nonneg_b d = true -> forall t i, 0 <= nth i (dists_of d t) 0.
+Proof.
+  intros d H t i. unfold dists_of.
+  assert (Hnil : 0 <= nth i (@nil Z) 0) by (destruct i; cbn [nth]; lia).
+  destruct (find_trip d t) as [tr|]; [|exact Hnil].
+  unfold trip_dists. destruct (find_path d (t_path tr)) as [pth|] eqn:Ef; [|exact Hnil].
+  unfold find_path in Ef. apply find_some in Ef. destruct Ef as [Hin _].
+  unfold seg_dists_nonneg_b in H. rewrite forallb_forall in H. specialize (H pth Hin).
+  rewrite forallb_forall in H.
+  destruct (nth_in_or_default i (p_dists pth) 0) as [Hn|Hn].
+  - apply Z.leb_le. apply H. exact Hn.
+  - rewrite Hn. lia.
+Qed.
+
+Lemma sum_dists_nonneg : forall l, (forall i, 0 <= nth i l 0) -> forall cnt from, 0 <= sum_dists l from cnt.
+Proof.
+  intros l H. induction cnt as [|c IH]; intros from; cbn [sum_dists]; [lia|].
+  pose proof (H from). pose proof (IH (S from)). lia.
+Qed.
+
+Lemma leg_ivd_cases : forall d t en ex, seg_dists_nonneg_b d = true ->
+  (leg_have d t ex = true /\ 0 <= leg_ivd d t en ex) \/ (leg_have d t ex = false /\ leg_ivd d t en ex = -1).
+Proof.
+  intros d t en ex H. unfold leg_ivd. destruct (leg_have d t ex); [left|right]; split; try reflexivity.
+  apply sum_dists_nonneg. apply dists_of_nonneg. exact H.
+Qed.
+
+(* [emit_step]: the two totals and the emitted in-vehicle distance *)
+Lemma emit_access_v : forall d p bd count j nxt,
+  is_walk j = true ->
+  let st' := emit_step d p bd count emit_init 0 j nxt in
+  e_tivd st' = 0 /\ e_tdist st' = js_dist j.
+Proof.
+  intros d p bd count j nxt Hw st'. subst st'.
+  destruct (is_walk_inv j Hw) as [Hen _].
+  unfold emit_step. rewrite Hen. split; reflexivity.
+Qed.
+
+Lemma emit_egress_v : forall d p bd count st i j nxt,
+  is_walk j = true -> i <> 0%nat ->
+  let st' := emit_step d p bd count st i j nxt in
+  e_tivd st' = e_tivd st /\
+  e_tdist st' = (if e_tdist st =? -1 then e_tdist st else e_tdist st + js_dist j).
+Proof.
+  intros d p bd count st i j nxt Hw Hi st'. subst st'.
+  destruct (is_walk_inv j Hw) as [Hen _].
+  apply Nat.eqb_neq in Hi.
+  unfold emit_step. rewrite Hen, Hi. split; reflexivity.
+Qed.
+
+Lemma emit_leg_v : forall d p bd count st i j nxt en ex t,
+  js_enter j = Some en -> js_exit j = Some ex -> js_trip j = Some t ->
+  is_transferable_trip d t = false ->
+  let st' := emit_step d p bd count st i j nxt in
+  let nl := Nat.ltb (S (S i)) count in
+  let have := leg_have d t ex in
+  let ivd := leg_ivd d t en ex in
+  let td := if have then (if e_tdist st =? -1 then e_tdist st else e_tdist st + ivd) else -1 in
+  e_steps st' = e_steps st ++
+     SBoard t (c_seq en) (c_seq en) (c_from en) (c_dep en) (c_dep en - e_tarr st) ::
+     SUnboard t (c_seq ex) (S (c_seq ex)) (c_to ex) (c_arr ex) (c_arr ex - c_dep en) ivd ::
+     (if nl then [SWalk 2 (js_walk j) (js_dist j) (c_arr ex) (c_arr ex + js_walk j)
+                        (c_arr ex + js_walk j + next_minw p nxt)]
+      else []) /\
+  e_tivd st' = (if have then (if e_tivd st =? -1 then e_tivd st else e_tivd st + ivd) else -1) /\
+  e_tdist st' = (if nl then (if td =? -1 then td else td + js_dist j) else td).
+Proof.
+  intros d p bd count st i j nxt en ex t Hen Hex Htr Htf st' nl have ivd td.
+  subst st' nl td ivd have. unfold leg_ivd, leg_have, dists_of.
+  unfold emit_step. rewrite Hen, Hex, Htr. cbv beta iota zeta. rewrite Htf.
+  destruct (Nat.ltb (S (S i)) count); cbn [e_steps e_tivd e_tdist]; split_all; try reflexivity.
+  rewrite <- app_assoc. reflexivity.
+Qed.
+
+(* the relation between the running totals and what the checker has accumulated so far:
+   [sv] in-vehicle sum, [unk] an unknown leg was seen, [w] sum of the walking distances *)
+Definition vinv (st : emit_st) (sv : Z) (unk : bool) (w : Z) : Prop :=
+  if unk then e_tivd st = -1 /\ e_tdist st = -1
+  else e_tivd st = sv /\ e_tdist st = sv + w /\ 0 <= sv /\ 0 <= w.
+
+Definition wd1 (q : Z * Z * Z * Z) : Z := let '(w, _, _, _) := q in w.
+
+Lemma legs_loop_v : forall d p bd count e,
+  is_walk e = true -> seg_dists_nonneg_b d = true -> 0 <= js_dist e ->
+  forall legs st i,
+    forallb (leg_in_data d) legs = true -> walk_dists_nonneg_b legs = true ->
+    (1 <= i)%nat -> (i + length legs + 1 = count)%nat ->
+    exists news,
+      e_steps (emit_loop d p bd count st i (legs ++ [e])) = e_steps st ++ news /\
+      (existsb (tr_step d) news = false ->
+       forall sv unk q, vinv st sv unk (wd1 q) ->
+         vinv (emit_loop d p bd count st i (legs ++ [e]))
+              (fst (fold_left ivd_step news (sv, unk))) (snd (fold_left ivd_step news (sv, unk)))
+              (wd1 (fold_left walk_dist_step news q))).
+Proof.
+  intros d p bd count e He Hseg Hde.
+  induction legs as [|j legs IH]; intros st i Hall Hnn Hi Hcnt.
+  - cbn [app emit_loop hd_error].
+    destruct (emit_egress d p bd count st i e None He ltac:(lia)) as (Hs & _).
+    destruct (emit_egress_v d p bd count st i e None He ltac:(lia)) as (Hv & Hd).
+    remember (emit_step d p bd count st i e None) as st' eqn:Est'.
+    eexists. split; [exact Hs|].
+    intros _ sv unk q HI. destruct q as [[[w a] g] t].
+    cbn [fold_left ivd_step walk_dist_step wd1 fst snd] in *.
+    unfold vinv in *. destruct unk.
+    + destruct HI as [I1 I2]. rewrite Hv, Hd, I2. cbn [Z.eqb Pos.eqb]. split; [exact I1|reflexivity].
+    + destruct HI as (I1 & I2 & I3 & I4). rewrite Hv, Hd.
+      destruct (e_tdist st =? -1) eqn:E; [apply Z.eqb_eq in E; lia|]. split_all; lia.
+  - cbn [forallb] in Hall. apply andb_true_iff in Hall. destruct Hall as [Hj Hall].
+    unfold walk_dists_nonneg_b in Hnn. cbn [forallb] in Hnn. apply andb_true_iff in Hnn.
+    destruct Hnn as [Hdj Hnn]. apply Z.leb_le in Hdj.
+    destruct (leg_in_data_inv d j Hj) as (en & ex & t & b & Hen & Hex & Htr & _ & _).
+    cbn [app emit_loop]. cbn [length] in Hcnt.
+    remember (hd_error (legs ++ [e])) as nxt eqn:Enxt.
+    remember (emit_step d p bd count st i j nxt) as st1 eqn:Est1.
+    destruct (IH st1 (S i) Hall Hnn ltac:(lia) ltac:(lia)) as (news1 & Hs1 & Hf1).
+    remember (emit_loop d p bd count st1 (S i) (legs ++ [e])) as st' eqn:Est'.
+    destruct (is_transferable_trip d t) eqn:Htf.
+    + (* a transferable leg: the claim is vacuous, any step list with this boarding will do *)
+      destruct (emit_leg d p bd count st i j nxt en ex t Hen Hex Htr) as (ivd & Hs & _).
+      rewrite <- Est1 in Hs.
+      eexists. split; [rewrite Hs1, Hs, <- app_assoc; reflexivity|].
+      intros Hx. cbn [app existsb tr_step] in Hx. rewrite Htf in Hx. discriminate Hx.
+    + destruct (emit_leg_v d p bd count st i j nxt en ex t Hen Hex Htr Htf) as (Hs & Hv & Hd).
+      rewrite <- Est1 in Hs, Hv, Hd.
+      exists ((SBoard t (c_seq en) (c_seq en) (c_from en) (c_dep en) (c_dep en - e_tarr st) ::
+               SUnboard t (c_seq ex) (S (c_seq ex)) (c_to ex) (c_arr ex) (c_arr ex - c_dep en)
+                        (leg_ivd d t en ex) ::
+               (if Nat.ltb (S (S i)) count
+                then [SWalk 2 (js_walk j) (js_dist j) (c_arr ex) (c_arr ex + js_walk j)
+                            (c_arr ex + js_walk j + next_minw p nxt)]
+                else [])) ++ news1).
+      split; [rewrite Hs1, Hs, <- app_assoc; reflexivity|].
+      intros Hx sv unk q HI.
+      rewrite existsb_app in Hx. apply orb_false_iff in Hx. destruct Hx as [_ Hx1].
+      specialize (Hf1 Hx1).
+      rewrite !fold_left_app. destruct q as [[[w a] g] t0].
+      destruct (leg_ivd_cases d t en ex Hseg) as [[Hh Hiv]|[Hh Hiv]]; rewrite Hh in Hv, Hd.
+      * (* the path has segment distances *)
+        assert (Eu : (leg_ivd d t en ex =? -1) = false) by (apply Z.eqb_neq; lia).
+        destruct (Nat.ltb (S (S i)) count);
+          cbn [fold_left ivd_step walk_dist_step Nat.eqb]; rewrite Eu, orb_false_r;
+          apply Hf1; unfold vinv in *; cbn [wd1] in *; destruct unk.
+        -- destruct HI as [I1 I2]. rewrite Hv, Hd, I1, I2. cbn [Z.eqb Pos.eqb]. split; reflexivity.
+        -- destruct HI as (I1 & I2 & I3 & I4). rewrite Hv, Hd.
+           destruct (e_tivd st =? -1) eqn:E1; [apply Z.eqb_eq in E1; lia|].
+           destruct (e_tdist st =? -1) eqn:E2; [apply Z.eqb_eq in E2; lia|].
+           destruct (e_tdist st + leg_ivd d t en ex =? -1) eqn:E3; [apply Z.eqb_eq in E3; lia|].
+           split_all; lia.
+        -- destruct HI as [I1 I2]. rewrite Hv, Hd, I1, I2. cbn [Z.eqb Pos.eqb]. split; reflexivity.
+        -- destruct HI as (I1 & I2 & I3 & I4). rewrite Hv, Hd.
+           destruct (e_tivd st =? -1) eqn:E1; [apply Z.eqb_eq in E1; lia|].
+           destruct (e_tdist st =? -1) eqn:E2; [apply Z.eqb_eq in E2; lia|].
+           split_all; lia.
+      * (* no segment distances: both totals become unknown *)
+        assert (Eu : (leg_ivd d t en ex =? -1) = true) by (apply Z.eqb_eq; exact Hiv).
+        destruct (Nat.ltb (S (S i)) count);
+          cbn [fold_left ivd_step walk_dist_step Nat.eqb]; rewrite Eu, orb_true_r;
+          apply Hf1; unfold vinv; rewrite Hv, Hd; cbn [Z.eqb Pos.eqb]; split; reflexivity.
+Qed.
+
+Theorem C06_vehicle_dists : forall (d : data) (p : params) (bestdep : Z) (js : list jstep),
+  shape_ok d js = true -> seg_dists_nonneg_b d = true -> walk_dists_nonneg_b js = true ->
+  vehicle_dists_ok_b d (emit d p bestdep js) = true.
+Proof.
+  intros d p bd js Hshape Hseg Hnn.
+  destruct (shape_ok_inv d js Hshape) as (a & legs & e & Ejs & Ha & He & Hne & Hall).
+  subst js. unfold walk_dists_nonneg_b in Hnn. cbn [forallb] in Hnn.
+  apply andb_true_iff in Hnn. destruct Hnn as [Hda Hnn]. apply Z.leb_le in Hda.
+  rewrite forallb_app in Hnn. apply andb_true_iff in Hnn. destruct Hnn as [Hnl Hde].
+  cbn [forallb] in Hde. rewrite andb_true_r in Hde. apply Z.leb_le in Hde.
+  unfold emit.
+  remember (length (a :: legs ++ [e])) as count eqn:Ecount.
+  assert (Hcount : (1 + length legs + 1 = count)%nat).
+  { subst count. cbn [length]. rewrite app_length. cbn [length]. lia. }
+  cbn [emit_loop].
+  destruct (emit_access d p bd count a (hd_error (legs ++ [e])) Ha) as (Hs0 & _).
+  destruct (emit_access_v d p bd count a (hd_error (legs ++ [e])) Ha) as (Av & Ad).
+  remember (emit_step d p bd count emit_init 0 a (hd_error (legs ++ [e]))) as st1 eqn:Est1.
+  destruct (legs_loop_v d p bd count e He Hseg Hde legs st1 1%nat Hall Hnl ltac:(lia) Hcount)
+    as (news & Hs & Hfold).
+  remember (emit_loop d p bd count st1 1 (legs ++ [e])) as st' eqn:Est'.
+  cbv zeta.
+  unfold vehicle_dists_ok_b, rides_transferable, walk_dist_sums.
+  cbn [rt_dep rt_arr rt_ttt rt_tdist rt_tivt rt_tivd rt_tnt rt_tntd rt_nboard rt_ntransf rt_trwalk
+       rt_trdist rt_acc rt_accd rt_egr rt_egrd rt_trwait rt_fwait rt_twait rt_steps].
+  change (existsb (fun s : step => match s with
+                                   | SBoard t _ _ _ _ _ => is_transferable_trip d t
+                                   | _ => false
+                                   end) (e_steps st'))
+    with (existsb (tr_step d) (e_steps st')).
+  rewrite Hs, Hs0. cbn [app existsb tr_step orb fold_left ivd_step walk_dist_step Nat.eqb].
+  destruct (existsb (tr_step d) news) eqn:Hx; [reflexivity|].
+  assert (HI : vinv st1 0 false (wd1 (0 + js_dist a, 0 + js_dist a, 0, 0))).
+  { unfold vinv. cbn [wd1]. split_all; lia. }
+  pose proof (Hfold eq_refl 0 false _ HI) as HF.
+  destruct (fold_left ivd_step news (0, false)) as [sv unk].
+  destruct (fold_left walk_dist_step news (0 + js_dist a, 0 + js_dist a, 0, 0)) as [[[w a'] g'] t'].
+  cbn [fst snd wd1] in HF. unfold vinv in HF.
+  destruct unk.
+  - destruct HF as [F1 F2]. rewrite F1, F2. reflexivity.
+  - destruct HF as (F1 & F2 & _ & _). apply andb_true_iff. split; apply Z.eqb_eq; lia.
+Qed.
+
+(* ---------------------------------------------------------------------------------------------- *)
+(* the journeys calc_single hands to [emit] have non-negative walking distances: every distance is that of an
+   access / egress row, of a reverse footpath row of the dataset, or the 0 of a rewrite.  A fresh (small) invariant
+   of the reverse scan, the rebuild loop and optimizeJourney; [journey_ok_b] says nothing about distances. *)
+
+Definition dok (j : jstep) : Prop := 0 <= js_dist j.
+Definition lab_ok (steps : nat -> jstep) : Prop := forall n, js_enter (steps n) = None \/ dok (steps n).
+Definition acc_lab_ok (racc : nat -> option jstep) : Prop := forall n j, racc n = Some j -> dok j.
+
+Lemma rows_ok_dist : forall d rows r, rows_ok d rows = true -> In r rows -> 0 <= fp_dist r.
+Proof.
+  intros d rows r H Hr. unfold rows_ok in H. rewrite forallb_forall in H. specialize (H r Hr).
+  apply andb_true_iff in H. destruct H as [_ H]. apply Z.leb_le. exact H.
+Qed.
+
+Lemma wf_rfp_dist : forall d, wf_data_b d = true -> forall n, In n (d_nodes d) -> forall r, In r (rfp_of d n) ->
+  0 <= fp_dist r.
+Proof.
+  intros d H n Hn r Hr. apply wf_data_parts in H. destruct H as (_ & W & _ & _).
+  unfold footpaths_ok in W. rewrite forallb_forall in W. specialize (W n Hn).
+  peel W F8. peel W F7. peel W F6. peel W F5. peel W F4. peel W F3. peel W F2.
+  apply (rows_ok_dist d (rfp_of d n) r F2 Hr).
+Qed.
+
+Lemma wf_tables_rows : forall d p acc egr, wf_tables_b d p acc egr = true ->
+  rows_ok d acc = true /\ rows_ok d egr = true.
+Proof.
+  intros d p acc egr H. unfold wf_tables_b in H. peel H T6. peel H T5. peel H T4. peel H T3. peel H T2.
+  split; assumption.
+Qed.
+
+Lemma lab_ok_upd : forall steps n j, lab_ok steps -> dok j -> lab_ok (upd steps n j).
+Proof.
+  intros steps n j H Hj x. unfold upd. destruct (Nat.eqb x n); [right; exact Hj|apply H].
+Qed.
+
+Lemma acc_lab_ok_upd : forall racc n j, acc_lab_ok racc -> dok j -> acc_lab_ok (upd racc n (Some j)).
+Proof.
+  intros racc n j H Hj x y. unfold upd. destruct (Nat.eqb x n); [|apply H].
+  intros E. injection E as <-. exact Hj.
+Qed.
+
+Lemma rev_fp_fold_dist : forall p k c minw exitc rows,
+  (forall r, In r rows -> 0 <= fp_dist r) ->
+  forall taur steps racc taur' steps' racc',
+    fold_left (rev_fp_step p k c minw exitc) rows (taur, steps, racc) = (taur', steps', racc') ->
+    lab_ok steps -> acc_lab_ok racc -> lab_ok steps' /\ acc_lab_ok racc'.
+Proof.
+  intros p k c minw exitc. induction rows as [|r rows IH]; intros Hrows taur steps racc taur' steps' racc' H HL HA.
+  - cbn [fold_left] in H. injection H as _ <- <-. split; assumption.
+  - cbn [fold_left] in H.
+    destruct (rev_fp_step_cases p k c minw exitc taur steps racc r) as (t1 & s1 & a1 & E & HS & HR).
+    rewrite E in H.
+    apply (IH (fun x Hx => Hrows x (or_intror Hx)) t1 s1 a1 taur' steps' racc' H).
+    + destruct HS as [[_ ->]|(_ & _ & _ & ->)]; [exact HL|].
+      apply lab_ok_upd; [exact HL|]. unfold dok, new_label, mk_js. cbn [js_dist].
+      apply Hrows. left. reflexivity.
+    + destruct HR as [->|(_ & _ & _ & ->)]; [exact HA|].
+      apply acc_lab_ok_upd; [exact HA|]. unfold dok, acc_label, mk_js. cbn [js_dist]. lia.
+Qed.
+
+Lemma rev_step_dist : forall d p k st c,
+  (forall r, In r (rfp_of d (c_from c)) -> 0 <= fp_dist r) ->
+  lab_ok (r_steps st) /\ acc_lab_ok (r_acc st) ->
+  lab_ok (r_steps (rev_step d p k false st c)) /\ acc_lab_ok (r_acc (rev_step d p k false st c)).
+Proof.
+  intros d p k st c Hrows [HL HA].
+  destruct (rev_step_spec d p k st c) as [(_ & E2 & _ & E4)|(_ & _ & _ & [(_ & E2 & E4)|(_ & e & _ & E)])].
+  - rewrite E2, E4. split; assumption.
+  - rewrite E2, E4. split; assumption.
+  - symmetry in E.
+    apply (rev_fp_fold_dist p k c (minw_eff p c) (Some e) (rfp_of d (c_from c)) Hrows _ _ _ _ _ _ E HL HA).
+Qed.
+
+Lemma rev_fold_dist : forall d p k L,
+  (forall c, In c L -> forall r, In r (rfp_of d (c_from c)) -> 0 <= fp_dist r) ->
+  forall st, lab_ok (r_steps st) /\ acc_lab_ok (r_acc st) ->
+    lab_ok (r_steps (fold_left (rev_step d p k false) L st)) /\
+    acc_lab_ok (r_acc (fold_left (rev_step d p k false) L st)).
+Proof.
+  intros d p k. induction L as [|c L IH]; intros HL st Hst; cbn [fold_left]; [exact Hst|].
+  apply IH; [intros c' Hc'; apply HL; right; exact Hc'|].
+  apply rev_step_dist; [apply HL; left; reflexivity|exact Hst].
+Qed.
+
+Lemma rev_scan_dist : forall d s p acc egr k st,
+  wf_data_b d = true -> rev_pre d s p acc egr k -> rev_scan d p k false = Ok st ->
+  lab_ok (r_steps st) /\ acc_lab_ok (r_acc st).
+Proof.
+  intros d s p acc egr k st Hwf Hpre Hscan. unfold rev_scan in Hscan.
+  destruct (rev_entry (k_set k) (hour_of (k_arr k) + 1)) as [i|]; [|discriminate].
+  rewrite (rp_set _ _ _ _ _ _ Hpre) in Hscan. injection Hscan as <-.
+  apply rev_fold_dist.
+  - intros c Hc r Hr. apply in_skipn in Hc. apply cs_rev_in in Hc. destruct Hc as [Hc _].
+    apply (wf_rfp_dist d Hwf (c_from c) (conn_from_node d c Hwf Hc) r Hr).
+  - unfold rev_init. cbn [r_steps r_acc]. split.
+    + intros n. left. rewrite (rp_steps _ _ _ _ _ _ Hpre). apply seed_steps_enter.
+    + intros n j Hj. discriminate Hj.
+Qed.
+
+Lemma set_last_walk_dist : forall l w dd, 0 <= dd -> Forall dok l -> Forall dok (set_last_walk l w dd).
+Proof.
+  induction l as [|x l IH]; intros w dd Hd H; [constructor|].
+  inversion H as [|x' l' Hx Hl]; subst.
+  cbn [set_last_walk]. destruct l as [|y l2].
+  - constructor; [unfold dok, set_walk; cbn [js_dist]; exact Hd|constructor].
+  - constructor; [exact Hx|]. apply IH; assumption.
+Qed.
+
+Lemma rebuild_dist : forall steps, lab_ok steps ->
+  forall fuel cur acc last legs last',
+    rebuild fuel steps cur acc last = Some (legs, last') ->
+    (js_enter cur = None \/ dok cur) -> Forall dok acc -> Forall dok legs.
+Proof.
+  intros steps HL. induction fuel as [|f IH]; intros cur acc last legs last' H Hcur Hacc.
+  - destruct (js_enter cur) as [b|] eqn:Eb; [destruct (js_exit cur) as [e|] eqn:Ee|].
+    + rewrite (rebuild_zero steps cur acc last b e Eb Ee) in H. discriminate H.
+    + rewrite rebuild_stop in H by (right; exact Ee). injection H as <- _. exact Hacc.
+    + rewrite rebuild_stop in H by (left; exact Eb). injection H as <- _. exact Hacc.
+  - destruct (js_enter cur) as [b|] eqn:Eb; [destruct (js_exit cur) as [e|] eqn:Ee|].
+    + rewrite (rebuild_step f steps cur acc last b e Eb Ee) in H.
+      destruct Hcur as [Hcur|Hcur]; [discriminate Hcur|].
+      apply (IH _ _ _ _ _ H (HL (c_to e))).
+      apply Forall_app. split; [|constructor; [exact Hcur|constructor]].
+      destruct acc as [|a0 acc0]; [constructor|].
+      apply set_last_walk_dist; [exact Hcur|exact Hacc].
+    + rewrite rebuild_stop in H by (right; exact Ee). injection H as <- _. exact Hacc.
+    + rewrite rebuild_stop in H by (left; exact Eb). injection H as <- _. exact Hacc.
+Qed.
+
+(* optimizeJourney *)
+Lemma Forall_set_nth : forall {A} (P : A -> Prop) (f : A -> A), (forall x, P x -> P (f x)) ->
+  forall l i, Forall P l -> Forall P (set_nth l i f).
+Proof.
+  intros A P f Hf. induction l as [|x l IH]; intros i H; [destruct i; constructor|].
+  inversion H as [|x' l' Hx Hl]; subst.
+  destruct i as [|i]; cbn [set_nth]; constructor; auto.
+Qed.
+
+Lemma Forall_erase_range : forall {A} (P : A -> Prop) (l : list A) a b, Forall P l -> Forall P (erase_range l a b).
+Proof.
+  intros A P l a b H. unfold erase_range. apply Forall_app. split.
+  - rewrite <- (firstn_skipn a l) in H. apply Forall_app in H. exact (proj1 H).
+  - rewrite <- (firstn_skipn b l) in H. apply Forall_app in H. exact (proj2 H).
+Qed.
+
+Lemma nth_js_dok : forall js i, Forall dok js -> (i < length js)%nat -> dok (nth_js js i).
+Proof.
+  intros js i H Hi. unfold nth_js. rewrite Forall_forall in H. apply H. apply nth_In. exact Hi.
+Qed.
+
+Lemma dok_set_exit : forall j c, dok j -> dok (set_exit j c).
+Proof. intros j c H. exact H. Qed.
+Lemma dok_set_enter : forall j c, dok j -> dok (set_enter j c).
+Proof. intros j c H. exact H. Qed.
+Lemma dok_set_walk : forall j w dd, 0 <= dd -> dok (set_walk j w dd).
+Proof. intros j w dd H. exact H. Qed.
+
+Lemma optimize_dist : forall d fuel js used ign js' used',
+  Forall dok js -> optimize fuel d js used ign = OptDone js' used' -> Forall dok js'.
+Proof.
+  intros d. induction fuel as [|f IH]; intros js used ign js' used' Hok H; [discriminate|].
+  cbn [optimize] in H.
+  destruct (detect d ign js 0 []) as [[[[[cs X] i] j]|]|] eqn:Hdet; [| |discriminate].
+  2:{ injection H as <- _. exact Hok. }
+  destruct (detect_top d ign js cs X i j Hdet) as (Hr & _).
+  destruct (Nat.eqb cs 1).
+  { destruct (leg_range d (nth_js js i)) as [rng|]; [|discriminate].
+    destruct (find (fun c => Nat.eqb X (c_to c)) rng) as [c|]; [|apply (IH _ _ _ _ _ Hok H)].
+    destruct (negb (c_cu c)); [apply (IH _ _ _ _ _ Hok H)|].
+    cbv zeta in H. refine (IH _ _ _ _ _ _ H).
+    apply Forall_erase_range. apply Forall_set_nth; [|exact Hok].
+    intros x _. apply dok_set_exit. apply dok_set_walk. apply (nth_js_dok js j Hok). lia. }
+  destruct (Nat.eqb cs 2).
+  { destruct (leg_range d (nth_js js j)) as [rng|]; [|discriminate].
+    destruct (find (fun c => Nat.eqb X (c_from c)) rng) as [c|]; [|injection H as <- _; exact Hok].
+    destruct (negb (c_cb c)); [injection H as <- _; exact Hok|].
+    injection H as <- _.
+    apply Forall_erase_range. apply Forall_set_nth; [intros x _; apply dok_set_walk; lia|].
+    apply Forall_set_nth; [intros x Hx; apply dok_set_enter; exact Hx|exact Hok]. }
+  destruct (Nat.eqb cs 3).
+  { destruct (leg_range d (nth_js js i)) as [rng|]; [|discriminate].
+    destruct (find (fun c => Nat.eqb X (c_to c)) rng) as [c|]; [|apply (IH _ _ _ _ _ Hok H)].
+    destruct (negb (c_cu c)); [apply (IH _ _ _ _ _ Hok H)|].
+    refine (IH _ _ _ _ _ _ H).
+    apply Forall_erase_range. apply Forall_set_nth; [intros x _; apply dok_set_walk; lia|exact Hok]. }
+  destruct (leg_range d (nth_js js i)) as [rf|]; [|discriminate].
+  destruct (leg_range d (nth_js js j)) as [rt|]; [|discriminate].
+  cbv zeta in H.
+  destruct (css_second X (css_first X rf None) rt js i j used ign) as [[js1 used1] ign1] eqn:Hcs.
+  refine (IH _ _ _ _ _ _ H).
+  destruct (css_second_spec _ _ _ _ _ _ _ _ _ _ _ Hcs) as [->|(cx & cy & _ & _ & _ & _ & ->)]; [exact Hok|].
+  apply Forall_erase_range. apply Forall_set_nth; [intros x Hx; apply dok_set_enter; exact Hx|].
+  apply Forall_set_nth; [intros x _; apply dok_set_walk; lia|exact Hok].
+Qed.
+
+Lemma Forall_dok_b : forall js, Forall dok js -> walk_dists_nonneg_b js = true.
+Proof.
+  intros js H. unfold walk_dists_nonneg_b. apply forallb_forall. intros j Hj.
+  rewrite Forall_forall in H. apply Z.leb_le. apply (H j Hj).
+Qed.
+
+(* what calc_reverse hands to [emit] *)
+Lemma calc_reverse_journey : forall d s p acc egr k res,
+  wf_data_b d = true -> wf_params_b p = true -> rows_ok d acc = true -> rows_ok d egr = true ->
+  rev_pre d s p acc egr k ->
+  calc_reverse d p k = Ok res ->
+  exists bestdep js1 used,
+    res = (emit d p bestdep js1, used) /\ shape_ok d js1 = true /\ walk_dists_nonneg_b js1 = true.
+Proof.
+  intros d s p acc egr k res Hwf Hp Racc Regr Hpre Hcalc. unfold calc_reverse in Hcalc.
+  destruct (rev_scan d p k false) as [st| | | | | | | |] eqn:Hscan; try discriminate.
+  cbn [bind] in Hcalc. destruct (r_count st =? 0); [discriminate|].
+  unfold rev_journey in Hcalc.
+  destruct (best_access p k st) as [[bestdep node]|] eqn:Hbest; [|discriminate].
+  destruct (r_acc st node) as [start|] eqn:Hstart; [|discriminate].
+  destruct (rebuild (REBUILD_FUEL d) (r_steps st) start [] None) as [[legs last0]|] eqn:Hreb; [|discriminate].
+  destruct (rev_journey_ok_gen_cap d s p acc egr k st bestdep node start (REBUILD_FUEL d) legs last0
+                                   Hwf Hp Hpre Hscan Hbest Hstart Hreb)
+    as (ar & er & ln & L1 & L2 & L3 & L4 & _).
+  rewrite (rp_acc _ _ _ _ _ _ Hpre), (rp_egr _ _ _ _ _ _ Hpre), L1, L2, L3 in Hcalc.
+  destruct (optimize (OPT_FUEL d) d (walk_step ar :: legs ++ [walk_step er]) [] []) as [js1 used| |] eqn:Hopt;
+    try discriminate.
+  injection Hcalc as <-.
+  exists bestdep, js1, used. split; [reflexivity|]. split.
+  - apply (journey_ok_shape d s p acc egr bestdep).
+    apply (optimize_preserves (OPT_FUEL d) d s p acc egr bestdep _ js1 used Hwf
+             (RouteValid.wf_params_minw p Hp) L4 Hopt).
+  - apply Forall_dok_b. apply (optimize_dist d (OPT_FUEL d) (walk_step ar :: legs ++ [walk_step er]) [] [] js1 used); [|exact Hopt].
+    destruct (rev_scan_dist d s p acc egr k st Hwf Hpre Hscan) as [HL HA].
+    constructor.
+    + unfold dok, walk_step. cbn [js_dist].
+      apply (rows_ok_dist d acc ar Racc (proj2 (row_of_some _ _ _ L2))).
+    + apply Forall_app. split.
+      * apply (rebuild_dist (r_steps st) HL (REBUILD_FUEL d) start [] None legs last0 Hreb);
+          [right; apply (HA node start Hstart)|constructor].
+      * constructor; [|constructor]. unfold dok, walk_step. cbn [js_dist].
+        apply (rows_ok_dist d egr er Regr (proj2 (row_of_some _ _ _ L3))).
+Qed.
+
+Lemma calc_single_journey : forall d s p acc egr fresh r used,
+  wf_data_b d = true -> wf_tables_b d p acc egr = true -> wf_params_b p = true ->
+  calc_single d (conn_set d s) p acc egr fresh = Ok (r, used) ->
+  exists bestdep js1,
+    r = emit d p bestdep js1 /\ shape_ok d js1 = true /\ walk_dists_nonneg_b js1 = true.
+Proof.
+  intros d s p acc egr fresh r used Hwf Htab Hp Hcalc.
+  destruct (wf_tables_rows d p acc egr Htab) as [Racc Regr].
+  pose proof (wf_params_time p Hp) as Htime.
+  unfold calc_single in Hcalc.
+  destruct (access_reason (negb fresh || nonempty acc) (negb fresh || nonempty egr)); [discriminate|].
+  cbv zeta in Hcalc. set (k := mk_calc d p (conn_set d s) acc egr true true) in *.
+  assert (Hfin : forall k', rev_pre d s p acc egr k' -> calc_reverse d p k' = Ok (r, used) ->
+            exists bestdep js1, r = emit d p bestdep js1 /\ shape_ok d js1 = true /\ walk_dists_nonneg_b js1 = true).
+  { intros k' Hpre Hc.
+    destruct (calc_reverse_journey d s p acc egr k' (r, used) Hwf Hp Racc Regr Hpre Hc)
+      as (bestdep & js1 & used' & E & Hs & Hn).
+    injection E as -> _. exists bestdep, js1. auto. }
+  destruct (q_fwd p) eqn:Hf.
+  - assert (Ek : k_dep k = q_time p) by (unfold k, mk_calc; cbn [k_dep]; rewrite Hf; reflexivity).
+    assert (Eg : (k_dep k >? -1) = true) by (apply Z.gtb_lt; lia).
+    rewrite Eg in Hcalc. cbn [andb] in Hcalc.
+    destruct (fwd_scan d p k false) as [fs| | | | | | | |] eqn:Hscan; try discriminate.
+    cbn [bind] in Hcalc. destruct (f_count fs =? 0); [discriminate|].
+    destruct (best_egress p k fs) as [[best n0]|] eqn:Hbest; [|discriminate].
+    apply (Hfin _ (calc_single_rev_pre_departure d s p acc egr fs best Htab Hf Hscan) Hcalc).
+  - rewrite andb_false_r in Hcalc.
+    destruct (k_arr k >? -1); [|discriminate].
+    pose proof (calc_single_rev_pre_arrival d s p acc egr Htab) as Hpre. cbv zeta in Hpre. fold k in Hpre.
+    apply (Hfin _ Hpre Hcalc).
+Qed.
+
+Theorem calc_single_vehicle_dists : forall d s p acc egr fresh r used,
+  wf_data_b d = true -> wf_tables_b d p acc egr = true -> wf_params_b p = true ->
+  seg_dists_nonneg_b d = true ->
+  calc_single d (conn_set d s) p acc egr fresh = Ok (r, used) -> vehicle_dists_ok_b d r = true.
+Proof.
+  intros d s p acc egr fresh r used Hwf Htab Hp Hseg Hcalc.
+  destruct (calc_single_journey d s p acc egr fresh r used Hwf Htab Hp Hcalc) as (bestdep & js1 & -> & Hs & Hn).
+  apply C06_vehicle_dists; assumption.
+Qed.
+
+Theorem alternatives_vehicle_dists : forall d s p acc egr rs total,
+  wf_data_b d = true -> wf_tables_b d p acc egr = true -> wf_params_b p = true ->
+  seg_dists_nonneg_b d = true ->
+  alternatives d (conn_set d s) p acc egr = Ok (rs, total) ->
+  forall r, In r rs -> vehicle_dists_ok_b d r = true.
+Proof.
+  intros d s p acc egr rs total Hwf Htab Hp Hseg H r Hin.
+  apply alt_ok_inv in H. destruct H as (r1 & used1 & st & Hc & HI & Hrs & _).
+  destruct (inv_routes _ _ _ _ _ _ _ _ _ HI) as (tl1 & Hr & Htl).
+  subst rs. rewrite Hr in Hin. destruct Hin as [Heq|Hin].
+  - subst r. apply (calc_single_vehicle_dists d s p acc egr true r1 used1 Hwf Htab Hp Hseg Hc).
+  - pose proof (Htl r Hin) as Hrc. unfold recalc in Hrc. destruct Hrc as (comb & used & Hcalc & _).
+    destruct (recalc_wf d s p acc egr r1 used1 comb Hwf Htab Hp Hc) as [Htab' Hp'].
+    apply (calc_single_vehicle_dists d s _ acc egr false r used Hwf Htab' Hp' Hseg Hcalc).
+Qed.
+
 (* ---------------------------------------------------------------------------------------------- *)
 (* non-vacuity: the route of the example query rides no transferable line, walks 120 m + 0 m + 60 m,
    and the checker accepts it *)
@@ -261,8 +796,78 @@ Example walk_dists_transfer_walk :
   walk_dists_ok_b ex_data (set_trdist r 69) = false.
 Proof. vm_compute. repeat split; try reflexivity. tauto. Qed.
 
+(* ---------------------------------------------------------------------------------------------- *)
+(* in-vehicle / overall distance: examples                                                          *)
+
+Definition with_paths (d : data) (ps : list path) : data :=
+  {| d_nodes := d_nodes d; d_fp := d_fp d; d_rfp := d_rfp d; d_lines := d_lines d; d_paths := ps;
+     d_trips := d_trips d; d_scenarios := d_scenarios d |}.
+
+(* non-vacuity: the example route rides 500 m + 900 m and walks 180 m *)
+Example vehicle_dists_nonvacuous :
+  seg_dists_nonneg_b ex_data = true /\
+  match calc_single ex_data (conn_set ex_data scen_all) (ex_params true 35000) ex_acc ex_egr true with
+  | Ok (r, _) =>
+      rides_transferable ex_data r = false /\ fold_left ivd_step (rt_steps r) (0, false) = (1400, false) /\
+      rt_tivd r = 1400 /\ rt_tdist r = 1580 /\ vehicle_dists_ok_b ex_data r = true
+  | _ => False
+  end.
+Proof. vm_compute. repeat split; reflexivity. Qed.
+
+(* D17 regression: the path of the first ride has no segment distances, the path of the second has (900 m): both
+   totals are "unknown" (-1); before the fix the second ride added its metres to the marker (899 / 959) *)
+Definition ex_data_unknown_first : data :=
+  with_paths ex_data [{| p_id := 1; p_line := 1; p_nodes := [1; 2; 3]%nat; p_dists := [] |};
+                      {| p_id := 2; p_line := 2; p_nodes := [2; 4]%nat; p_dists := [900] |}].
+Example vehicle_dists_unknown_then_known :
+  wf_data_b ex_data_unknown_first = true /\ seg_dists_nonneg_b ex_data_unknown_first = true /\
+  match calc_single ex_data_unknown_first (conn_set ex_data_unknown_first scen_all) (ex_params true 35000)
+                    ex_acc ex_egr true with
+  | Ok (r, _) =>
+      map (fun s => match s with SUnboard _ _ _ _ _ _ ivd => ivd | _ => 0 end) (rt_steps r)
+        = [0; 0; -1; 0; 0; 900; 0] /\
+      rt_tivd r = -1 /\ rt_tdist r = -1 /\ vehicle_dists_ok_b ex_data_unknown_first r = true
+  | _ => False
+  end.
+Proof. vm_compute. repeat split; reflexivity. Qed.
+
+(* FINDING: [wf_data_b] is not enough.  It admits a segment distance of -1 ([-1 <=? x] for every element of
+   [p_dists]); with the first segment of path 1 at -1 the dataset is well-formed, calc_single answers, the ride's
+   in-vehicle distance is the -1 that the step list shows as "unknown", the in-vehicle total stays at -1 but the
+   overall total is 120 - 1 + 0 + 900 + 60 = 1079, not -1: the checker rejects the route.  Hence
+   [seg_dists_nonneg_b] is an explicit hypothesis of the two lifts. *)
+Definition ex_data_seg_m1 : data :=
+  with_paths ex_data [{| p_id := 1; p_line := 1; p_nodes := [1; 2; 3]%nat; p_dists := [-1; 700] |};
+                      {| p_id := 2; p_line := 2; p_nodes := [2; 4]%nat; p_dists := [900] |}].
+Example vehicle_dists_wf_data_not_enough :
+  wf_data_b ex_data_seg_m1 = true /\ seg_dists_nonneg_b ex_data_seg_m1 = false /\
+  wf_tables_b ex_data_seg_m1 (ex_params true 35000) ex_acc ex_egr = true /\
+  match calc_single ex_data_seg_m1 (conn_set ex_data_seg_m1 scen_all) (ex_params true 35000) ex_acc ex_egr true with
+  | Ok (r, _) =>
+      rides_transferable ex_data_seg_m1 r = false /\
+      rt_tivd r = -1 /\ rt_tdist r = 1079 /\ vehicle_dists_ok_b ex_data_seg_m1 r = false
+  | _ => False
+  end.
+Proof. vm_compute. repeat split; reflexivity. Qed.
+
+(* the walking distances matter as well at the level of [emit]: an access walk of distance -1 puts the overall total
+   on the marker, where it stays (calc_single never builds such a journey: [calc_single_journey]) *)
+Example vehicle_dists_needs_walk_dists :
+  let c1 := {| c_trip := 1; c_seq := 1; c_from := 1; c_to := 2; c_dep := 36000; c_arr := 36300;
+               c_cb := true; c_cu := true; c_minw := -1 |} in
+  let js := [walk_step (row 1 100 (-1)); mk_js (Some c1) (Some c1) 1 0 true 0; walk_step (row 2 50 60)] in
+  let r := emit ex_data (ex_params true 35000) 35900 js in
+  shape_ok ex_data js = true /\ seg_dists_nonneg_b ex_data = true /\ walk_dists_nonneg_b js = false /\
+  rt_tivd r = 500 /\ rt_tdist r = -1 /\ vehicle_dists_ok_b ex_data r = false.
+Proof. vm_compute. repeat split; reflexivity. Qed.
+
 Print Assumptions C06_walk_dists.
 Print Assumptions calc_single_walk_dists.
 Print Assumptions alternatives_walk_dists.
 Print Assumptions walk_dists_nonvacuous.
 Print Assumptions walk_dists_transfer_walk.
+Print Assumptions C06_vehicle_dists.
+Print Assumptions calc_single_journey.
+Print Assumptions calc_single_vehicle_dists.
+Print Assumptions alternatives_vehicle_dists.
+Print Assumptions vehicle_dists_wf_data_not_enough.
